@@ -15,11 +15,6 @@ import (
 	bs "github.com/danthegoodman1/bloomsearch"
 )
 
-type blockID struct {
-	File string
-	Off  int
-}
-
 func judgeStatsClean(sr *SearchRun, run QueryRun, qi int) *Violation {
 	q := run.Spec.Query()
 	var pre *bs.QueryPrefilter
